@@ -165,7 +165,8 @@ package absnfs
 // hit <=> present and not expired at the clock reading taken by the call (sequential semantics)
 //@ ensures [miss-absent] !old(has(c.cache, path)) ==> !result1 && result0 == nil
 //@ ensures [negative-hit] result1 && result0 == nil ==> old(has(c.cache, path)) && old(c.cache[path].isNegative)
-//@ ensures [positive-hit] result1 && result0 != nil ==> old(has(c.cache, path)) && !old(c.cache[path].isNegative) && old(c.cache[path].attrs) != nil && fresh(result0)
+// (C29: the record handed out is a private copy - a caller that installs it in a node shares nothing with the cache)
+//@ ensures [positive-hit] {C21, C02, C29} result1 && result0 != nil ==> old(has(c.cache, path)) && !old(c.cache[path].isNegative) && old(c.cache[path].attrs) != nil && fresh(result0)
 //@ ensures [copy-mode] result1 && result0 != nil ==> result0.Mode == old(c.cache[path].attrs.Mode) && result0.Size == old(c.cache[path].attrs.Size) && result0.FileId == old(c.cache[path].attrs.FileId)
 //@ ensures [copy-ids] result1 && result0 != nil ==> result0.Uid == old(c.cache[path].attrs.Uid) && result0.Gid == old(c.cache[path].attrs.Gid)
 //@ ensures [copy-times] result1 && result0 != nil ==> result0.mtime == old(c.cache[path].attrs.mtime) && result0.atime == old(c.cache[path].attrs.atime)
